@@ -160,7 +160,7 @@ impl Prop for C02 {
     }
     fn runs(&self, tier: Tier) -> u64 {
         match tier {
-            Tier::Quick => 1500,
+            Tier::Quick => 2200,
             Tier::Thorough => 30000,
         }
     }
